@@ -258,6 +258,35 @@ def r_mat_misc(rep, f, cx, nmax):
                         m3 = cx.call(M + "full", [n, n])
                         m3["data"] = [Poly.const(1) if (q // n) == (q % n) else Poly() for q in range(n * n)]
                         variants.append(("Full storage holding the unit matrix", m3))
+                    if k != ("I",):
+                        # concrete contents: the unit matrix in this storage, and the unit matrix with ONE entry changed - every
+                        # stored off-diagonal position in turn, and one diagonal entry (a scan that skips part of the storage
+                        # answers `true` for one of these)
+                        probe = cx.mk(k, n, "q")
+                        slot = {}
+                        for i in range(n):
+                            for j in range(n):
+                                a_ = cx.read(probe, i, j)
+                                a_ = a_.single_atom() if isinstance(a_, Poly) else None
+                                if a_ and a_.startswith("q"):
+                                    slot[(i, j)] = int(a_[1:])
+
+                        def concrete(changed=None, val=None):
+                            m_ = cx.mk(k, n, "q")
+                            data = [Poly() for _ in m_["data"]]
+                            for (i, j), q_ in slot.items():
+                                if i == j:
+                                    data[q_] = Poly.const(1)
+                            if changed is not None:
+                                data[slot[changed]] = Poly.const(val)
+                            m_["data"] = data
+                            return m_
+                        if all((i, i) in slot for i in range(n)):
+                            variants.append(("holding the unit matrix", concrete()))
+                            for (i, j) in sorted(slot):
+                                if i != j:
+                                    variants.append(("the unit matrix with entry (%d, %d) = 4" % (i, j), concrete((i, j), 4)))
+                            variants.append(("the unit matrix with entry (%d, %d) = 2" % (n - 1, n - 1), concrete((n - 1, n - 1), 2)))
                     for what, m in variants:
                         n_c += 1
                         b = dderef(cx.call(ISI, [m]))
